@@ -3,7 +3,7 @@ import CssVerif.Model.SheetSpec
 /-!
 # wire form of spelled sheets for the C03 driver
 
-The s-expression reader and the JSON writer of `Drv/C02.lean` (lines 21-370), copied because a driver root cannot be
+The s-expression reader and the JSON writer of `Drv/C02.lean` (lines 23-416), copied because a driver root cannot be
 imported by another driver; tools/harness/c02_struct.py `sx` writes this form.  No model content here.
 -/
 namespace CssVerif.SheetCanonWire
@@ -97,6 +97,8 @@ def jARule (bp : Bool) : ARule → String
       ++ ",\"name\":" ++ jOptCps name ++ "}"
   | .namespace_ p u => "{\"k\":\"namespace\",\"pfx\":" ++ q (encCps p) ++ ",\"uri\":" ++ q (encCps u) ++ "}"
   | .charset e => "{\"k\":\"charset\",\"enc\":" ++ q (encCps e) ++ "}"
+  | .variables vs => "{\"k\":\"variables\",\"vars\":"
+      ++ jList (vs.map fun v => "{\"name\":" ++ q (encCps v.1) ++ ",\"value\":" ++ jToks bp v.2 ++ "}") ++ "}"
   | .other k => "{\"k\":\"other\",\"kind\":" ++ q (kindName k) ++ "}"
 def jARules (bp : Bool) : List ARule → String
   | [] => ""
@@ -256,6 +258,13 @@ def sxOptCps : SX → Option (Option Cps)
   | .atom "none" => some none
   | x => (sxCps x).map some
 
+def sxName : SX → Option SName
+  | .atom "none" => some none
+  | .list [qq, n, g] => match sxQuote qq, sxCps n, sxGap g with
+    | some qq, some n, some g => some (some (qq, n, g))
+    | _, _, _ => none
+  | _ => none
+
 def sxPageItem : SX → Option (SPageItem × WGap)
   | .list [.atom "margin", n, kw, g, blk, w] =>
     match sxCps n, sxMask kw, sxGap g, sxBlock blk, sxWGap w with
@@ -290,10 +299,11 @@ def sxRule : SX → Option (SRule × WGap)
   | .list [.atom "unknown", t, w] => match sxToks t, sxWGap w with
     | some t, some w => some (.unknown t, w)
     | _, _ => none
-  | .list [.atom "media", kw, g1, mq, g2, lead, .list rules, w] =>
-    match sxMask kw, sxGap g1, sxToks mq, sxGap g2, sxWGap lead, sxRules rules, sxWGap w with
-    | some kw, some g1, some mq, some g2, some lead, some rules, some w => some (.media kw g1 mq g2 lead rules, w)
-    | _, _, _, _, _, _, _ => none
+  | .list [.atom "media", kw, g1, mq, g2, nm, lead, .list rules, w] =>
+    match sxMask kw, sxGap g1, sxToks mq, sxGap g2, sxName nm, sxWGap lead, sxRules rules, sxWGap w with
+    | some kw, some g1, some mq, some g2, some nm, some lead, some rules, some w =>
+      some (.media kw g1 mq g2 nm lead rules, w)
+    | _, _, _, _, _, _, _, _ => none
   | .list [.atom "fontface", kw, g1, blk, w] =>
     match sxMask kw, sxGap g1, sxBlock blk, sxWGap w with
     | some kw, some g1, some blk, some w => some (.fontface kw g1 blk, w)
@@ -317,15 +327,15 @@ def sxImp : SX → Option (SImp × WGap)
   | .list [.atom "unknown", t, w] => match sxToks t, sxWGap w with
     | some t, some w => some (.unknown t, w)
     | _, _ => none
-  | .list [.atom "import", kw, g1, href, g2, mq, w] =>
+  | .list [.atom "import", kw, g1, href, g2, mq, nm, w] =>
     match sxMask kw, sxGap g1, sxHref href, sxGap g2, (match mq with
       | .atom "none" => some none
       | .list [m, g3] => (match sxToks m, sxGap g3 with
         | some m, some g3 => some (some (m, g3))
         | _, _ => none)
-      | _ => none), sxWGap w with
-    | some kw, some g1, some href, some g2, some mq, some w => some (.import_ kw g1 href g2 mq, w)
-    | _, _, _, _, _, _ => none
+      | _ => none), sxName nm, sxWGap w with
+    | some kw, some g1, some href, some g2, some mq, some nm, some w => some (.import_ kw g1 href g2 mq nm, w)
+    | _, _, _, _, _, _, _ => none
   | _ => none
 
 def sxNs : SX → Option (SNs × WGap)
@@ -346,16 +356,49 @@ def sxNs : SX → Option (SNs × WGap)
     | _, _, _, _, _, _ => none
   | _ => none
 
+def sxVarDecl : SX → Option SVarDecl
+  | .list [n, sp, g1, g2, v, g3] =>
+    match sxCps n, sxMask sp, sxGap g1, sxGap g2, sxToks v, sxGap g3 with
+    | some n, some sp, some g1, some g2, some v, some g3 => some ⟨n, sp, g1, g2, v, g3⟩
+    | _, _, _, _, _, _ => none
+  | _ => none
+
+def sxVarBlock : SX → Option SVarBlock
+  | .list [lead, .list items, last] =>
+    match sxGap lead, mapM? (fun x => match x with
+      | SX.list [d, g] => (match sxVarDecl d, sxGap g with
+        | some d, some g => some (d, g)
+        | _, _ => none)
+      | _ => none) items, (match last with
+      | .atom "none" => some none
+      | d => (sxVarDecl d).map some) with
+    | some lead, some items, some last => some ⟨lead, items, last⟩
+    | _, _, _ => none
+  | _ => none
+
+def sxVar : SX → Option (SVar × WGap)
+  | .list [.atom "comment", b, w] => match sxCps b, sxWGap w with
+    | some b, some w => some (.comment b, w)
+    | _, _ => none
+  | .list [.atom "unknown", t, w] => match sxToks t, sxWGap w with
+    | some t, some w => some (.unknown t, w)
+    | _, _ => none
+  | .list [.atom "variables", kw, g0, blk, w] =>
+    match sxMask kw, sxGap g0, sxVarBlock blk, sxWGap w with
+    | some kw, some g0, some blk, some w => some (.variables kw g0 blk, w)
+    | _, _, _, _ => none
+  | _ => none
+
 def sxSheet : List SX → Option SSheet
-  | [cs, lead, .list imps, .list nss, .list rules] =>
+  | [cs, lead, .list imps, .list nss, .list vars, .list rules] =>
     match (match cs with
       | .atom "none" => some none
       | .list [qq, e] => (match sxQuote qq, sxCps e with
         | some qq, some e => some (some (qq, e))
         | _, _ => none)
-      | _ => none), sxWGap lead, mapM? sxImp imps, mapM? sxNs nss, sxRules rules with
-    | some cs, some lead, some imps, some nss, some rules => some ⟨cs, lead, imps, nss, rules⟩
-    | _, _, _, _, _ => none
+      | _ => none), sxWGap lead, mapM? sxImp imps, mapM? sxNs nss, mapM? sxVar vars, sxRules rules with
+    | some cs, some lead, some imps, some nss, some vars, some rules => some ⟨cs, lead, imps, nss, vars, rules⟩
+    | _, _, _, _, _, _ => none
   | _ => none
 
 /-- the oracle of the correspondence: selectors / values / media queries accepted, at-rules by their models -/
